@@ -386,7 +386,9 @@ func TestC06(t *testing.T) {
 	if sh, _ := shard(); sh == 0 {
 		for _, src := range []string{"a b", "if a; then b; fi", "echo $(a; b) c", "cat <<E\nx\nE\n", "a <<A <<B\n1\nA\n2\nB\n", "x `a | b` $((1 + 2))", "a | | b c", "a | | $(", "cat <<E ; ; \n", "a | | 'q", ") 'x", "a $(b", "{ a; } }", "for i in a; do b; done", "case x in a) b;; esac", "a # c\n", "a && \nb\n",
 			// an error inside a substitution, with more input behind it
-			"echo $(a ; ; -b c d e f) g", "x `a | | b c d` e f", "echo $(a ; ; b c d 'x", "echo \"$(a && && b c)\" d e", "echo $(a $(b ; ; c d) e) f g", "a $((1 + $(b ; ; c d e) )) f"} {
+			"echo $(a ; ; -b c d e f) g", "x `a | | b c d` e f", "echo $(a ; ; b c d 'x", "echo \"$(a && && b c)\" d e", "echo $(a $(b ; ; c d) e) f g", "a $((1 + $(b ; ; c d e) )) f",
+			// the parser has given up before the substitution, whose own parse fails as well
+			"a | | $(b | | -c -d) e", "a ; ; `b && && c d` e f", "a | | \"$(b ; ; c d)\" e f", ") $(a | | b c) d", "a | | $(b $(c ; ; d e) f) g", "a | | x$((1 + $(b ; ; c d) ))y z", "{ a; } } $(b | | c d e) f", "a | | $(cat <<E ; ; b c\nE\n) d"} {
 			explore(t, c06Case{Kind: "parse", Src: src}, nil, false)
 		}
 		for _, e := range c06EvalExprs {
@@ -413,6 +415,15 @@ func TestC06(t *testing.T) {
 		case 2: // a damaged program: one token deleted / inserted, or an unterminated tail
 			c = c06Case{Kind: "parse", Src: c06Damaged(rt, 2, 3)}
 			st.Class("input_damaged")
+			if rapid.IntRange(0, 2).Draw(rt, "two_errors") == 0 {
+				// an error of the outer parser, then a substitution whose parser fails too, then more text
+				outer := rapid.SampledFrom([]string{"a | |", "a ; ;", ")", "{ a; } }", "a && &&", "if a; fi", "a | | b"}).Draw(rt, "outer")
+				inner := rapid.SampledFrom([]string{"b | | c d", "b ; ; -c", "b && && c 'q", "b $(c ; ; d) e", "b", "b | | cat <<E\nE\n", "for i in; do ; done x"}).Draw(rt, "inner")
+				wrap := rapid.SampledFrom([]string{"$(%s)", "`%s`", "\"$(%s)\"", "x$(%s)y", "${v:-$(%s)}", "$((1 + $(%s)))"}).Draw(rt, "wrap")
+				tail := rapid.SampledFrom([]string{" e", " e f g", "", "\n", " 'q"}).Draw(rt, "tail")
+				c.Src = outer + " " + fmt.Sprintf(wrap, inner) + tail
+				st.Class("input_outer_error_then_failing_substitution")
+			}
 		default: // arithmetic with faults and assignments
 			k := rapid.IntRange(1, 3).Draw(rt, "nexpr")
 			var parts []string
